@@ -35,6 +35,11 @@ def bases(tier):
         B.append(("std.objectValues(%s)" % obj, nums, "num", "objectValues"))
         B.append(("std.map(function(kv) kv.value, std.objectKeysValues(%s))" % obj, nums, "num", "objectKeysValues"))
         B.append(("std.filter(function(x) x >= 10, std.range(5, %d))" % (9 + n), nums, "num", "filter"))
+        # elements that are themselves arrays / objects, in eagerly built representations
+        nested = [[x] for x in nums]
+        B.append(("std.parseJson(%s)" % jval(json.dumps(nested)), nested, "nested", "parseJson"))
+        B.append(("std.sort(%s, function(x) x[0])" % jval(nested), nested, "nested", "sort-keyF"))
+        B.append(("std.filter(function(x) true, %s)" % jval(nested), nested, "nested", "filter-nested"))
         B.append(("std.repeat([10], %d)" % n, [10.0] * n, "num", "repeat"))
     return B
 
@@ -94,6 +99,8 @@ def ops(tier, reduced=False):
 
 
 def hashable(x):
+    if isinstance(x, dict):
+        return tuple(sorted((k, hashable(v)) for k, v in x.items()))
     return tuple(hashable(i) for i in x) if isinstance(x, list) else x
 
 
@@ -232,6 +239,8 @@ def check_array(acc, w, build, src, lst, kind, chain):
         "std.mapWithIndex(function(i, x) i, %s)", "std.foldr(function(x, acc) acc + 1, %s, 0)", "std.slice(%s, 0, null, 2)", "std.removeAt(%s + [0], 0)",
         "std.avg(%s + [1])", "std.type(%s)", "std.isArray(%s)", "std.length(std.filterMap(function(x) true, function(x) x, %s))", "std.lines(std.map(std.toString, %s))",
         "std.equals(%s, %s)", "std.manifestJson(%s)", "std.objectValues({a: %s})[0]", "std.get({a: %s}, 'a')", "std.assertEqual(%s, %s)",
+        "%s == std.filter(function(x) true, %s)", "std.filter(function(x) true, %s) != std.set(%s, function(x) std.toString(x))",
+        "std.count(std.filter(function(x) true, [%s, %s]), std.filter(function(x) true, %s))",
         "std.repeat(%s, 2)", "std.reverse(%s)", "[std.length(%s[i:]) for i in [0, 1, 100]]", "std.mergePatch({a: 0}, {a: %s}).a",
         "std.manifestXmlJsonml(['t', {}] + std.map(std.toString, %s))", "std.manifestIni({main: {k: std.map(std.toString, %s)}, sections: {}})",
     ]
